@@ -2,6 +2,7 @@ package props
 
 import (
 	"go/constant"
+	"go/token"
 	"go/types"
 )
 
@@ -26,3 +27,5 @@ func fillConstNames(sc *types.Scope, out map[int64]string) {
 		}
 	}
 }
+
+type tokenPos = token.Pos
